@@ -308,6 +308,8 @@ def mir_expr(tr, op, self_prefix='F.', depth=0):
             return NUM(int(op['int']))
         if 'bits' in op:
             return float_const(op)
+        if 'bool' in op:
+            return NUM(1 if op['bool'] else 0)
         return None
     o = tr.origin(op)
     if o['o'] == 'const':
@@ -317,7 +319,8 @@ def mir_expr(tr, op, self_prefix='F.', depth=0):
         if len(fp) == 1:
             return SYM(self_prefix + fp[0])
         return None
-    if o['o'] == 'rvalue' and not o['p']:
+    if o['o'] == 'rvalue' and (not o['p'] or (o['rv']['r'] == 'binop' and o['rv']['op'].endswith('WithOverflow')
+                                             and field_path(o['p']) == ['0'] and len(o['p']) == 1)):
         rv = o['rv']
         if rv['r'] == 'binop':
             a = mir_expr(tr, rv['a'], self_prefix, depth + 1)
